@@ -39,6 +39,17 @@ EXTRA = [
      {"Mode": "lax", "Resources": {"q": {"Type": "Queue", "Properties": {}}}}),
     ("let b = Resources.*[ Type == 'Bucket' ]\nrule first {\n  %b {\n    Properties.V == 'on'\n  }\n  Mode == 'strict' <<mode>>\n}\nrule second {\n  Mode == 'strict' or\n  %b {\n    Properties.V == 'on'\n  }\n}\n"
      "rule third {\n  when Mode exists {\n    %b {\n      Properties.V == 'on'\n    }\n    Mode == 'strict'\n  }\n}\n", {"Mode": "lax", "Resources": {"q": {"Type": "Queue", "Properties": {}}}}),
+    # a filter behind an explicit [*] on a list of structs, one element rejected by the filter and the clause failing on a selected
+    # one: the filter's own comparisons are not checks of the rule (written [*][ .. ], [ .. ] and .*[ .. ]; with a message, in a
+    # block, under some, two filters in a row)
+    ("rule tagged {\n  Resources.*.Properties.Tags[*][ Key == 'env' ].Value == 'prod' <<env-must-be-prod>>\n}\nrule has_resources {\n  Resources exists\n}\n",
+     {"Resources": {"r1": {"Type": "Bucket", "Properties": {"Tags": [{"Key": "owner", "Value": "team-a"}, {"Key": "env", "Value": "dev"}]}}}}),
+    ("rule tagged {\n  Resources.*.Properties.Tags[ Key == 'env' ].Value == 'prod' <<env-must-be-prod>>\n}\nrule tagged2 {\n  Resources.*[ Type == 'Bucket' ].Properties.Tags[*][ Key == 'env' ][ Value != 'x' ].Value == 'prod'\n}\n",
+     {"Resources": {"r1": {"Type": "Bucket", "Properties": {"Tags": [{"Key": "owner", "Value": "team-a"}, {"Key": "env", "Value": "dev"}]}}, "r2": {"Type": "Queue", "Properties": {"Tags": []}}}}),
+    ("rule blk {\n  Resources.*.Properties.Tags[*][ Key == 'env' ] {\n    Value == 'prod' <<inner>>\n    Key exists\n  }\n}\nrule sm {\n  some Resources.*.Properties.Tags[*][ Key == 'env' ].Value == 'prod' <<some>>\n}\n",
+     {"Resources": {"r1": {"Properties": {"Tags": [{"Key": "owner", "Value": "team-a"}, {"Key": "env", "Value": "dev"}, {"Key": "env", "Value": "prod"}]}}}}),
+    ("let tags = Resources.*.Properties.Tags[*]\nrule v {\n  %tags[ Key == 'env' ].Value == 'prod' <<via variable>>\n  l[*][ k == 1 ].v in [2, 3] <<list>>\n}\n",
+     {"l": [{"k": 1, "v": 9}, {"k": 2, "v": 2}, {"k": 1, "v": 2}], "Resources": {"r1": {"Properties": {"Tags": [{"Key": "owner", "Value": "team-a"}, {"Key": "env", "Value": "dev"}]}}}}),
 ]
 
 
